@@ -612,7 +612,7 @@ pub fn run(rep: &mut Report) {
         let d = json::gen_doc(&mut rng, true);
         let sh = rng.chance(1, 2);
         let mut tree = json::to_tree(&d, &mut rng, sh);
-        for _ in 0..rng.range(1, 2) {
+        for _ in 0..(if rng.chance(1, 4) { 2 } else { 1 }) {
             let what = json::mutate(&mut tree, &mut rng);
             rep.count(&format!("json.mutation.{}", what));
         }
@@ -671,7 +671,7 @@ pub fn run(rep: &mut Report) {
     }
 
     // ---- robustness oracle (C14) on every case, then the tie ----------------------------------
-    let mut budget = [3u32, 3u32];
+    let mut budget = [2u32, 2u32];
     for c in &cases {
         report_panic(rep, c, &mut budget);
     }
